@@ -110,23 +110,6 @@ func forkAndExecInChild(r *Runner, argv0 *byte, argv, env []*byte, workdir, host
 		childExitError(pipe, LocGetPid, err1)
 	}
 
-	// a traced child must not outlive its tracer, not even in the window before the tracer has
-	// seen the first stop and set PTRACE_O_EXITKILL (it would stay stopped forever, or run the
-	// program unsupervised once continued)
-	if r.Ptrace {
-		_, _, err1 = syscall.RawSyscall(syscall.SYS_PRCTL, syscall.PR_SET_PDEATHSIG, uintptr(syscall.SIGKILL), 0)
-		if err1 != 0 {
-			childExitError(pipe, LocPtraceMe, err1)
-		}
-		if r.CloneFlags&unix.CLONE_NEWPID == 0 {
-			r1, _, _ = syscall.RawSyscall(syscall.SYS_GETPPID, 0, 0, 0)
-			if r1 != ppid {
-				// the tracer died before the death signal was armed
-				childExitError(pipe, LocPtraceMe, syscall.ESRCH)
-			}
-		}
-	}
-
 	// keep capabilities through set_uid / set_gid calls (make sure we can use unshare cgroup), later dropped
 	if r.Credential != nil || r.UnshareCgroupAfterSync {
 		_, _, err1 = syscall.RawSyscall(syscall.SYS_PRCTL, syscall.PR_SET_SECUREBITS,
@@ -156,6 +139,23 @@ func forkAndExecInChild(r *Runner, argv0 *byte, argv, env []*byte, workdir, host
 		_, _, err1 = syscall.RawSyscall(unix.SYS_SETUID, uintptr(cred.Uid), 0, 0)
 		if err1 != 0 {
 			childExitError(pipe, LocSetUid, err1)
+		}
+	}
+
+	// a traced child must not outlive its tracer, not even in the window before the tracer has
+	// seen the first stop and set PTRACE_O_EXITKILL (it would stay stopped forever, or run the
+	// program unsupervised once continued); armed after the credential change, which clears it
+	if r.Ptrace {
+		_, _, err1 = syscall.RawSyscall(syscall.SYS_PRCTL, syscall.PR_SET_PDEATHSIG, uintptr(syscall.SIGKILL), 0)
+		if err1 != 0 {
+			childExitError(pipe, LocPtraceMe, err1)
+		}
+		if r.CloneFlags&unix.CLONE_NEWPID == 0 {
+			r1, _, _ = syscall.RawSyscall(syscall.SYS_GETPPID, 0, 0, 0)
+			if r1 != ppid {
+				// the tracer died before the death signal was armed
+				childExitError(pipe, LocPtraceMe, syscall.ESRCH)
+			}
 		}
 	}
 
